@@ -154,6 +154,12 @@ def run(ctx):
     nt = set()
     if ctx.replay:
         r = json.load(open(ctx.replay))["replay"]
+        if "corpus" in r:
+            label = r["corpus"]
+            for lab, src, stats in corpora(ctx, work):
+                if label.rstrip("y") == lab:
+                    yrs = (1995, 2040) if label.endswith("y") else (2000, 2050)
+                    check_compiled(ctx, label, src, r["scope"], work, False, nt, start_year=yrs[0], until_year=yrs[1])
         if "source" in r:
             v = check_generated_source(ctx, r["source"], r.get("scope", "extended"), r.get("start_year", 2000), r.get("until_year", 2050), work, "replay")
         ctx.evaluations = 1
